@@ -341,6 +341,16 @@ fn run(ctx: &mut Ctx, rep: &mut Report, mode: Mode) {
             }
         });
     }
+    // root question name, lying counts, every short tail over pointer-ish bytes
+    {
+        let ctxp: *mut Sweep = &mut sw;
+        root_pointer_packets(tier.pick(8, 9), |i, p| {
+            let sw = unsafe { &mut *ctxp };
+            if sw.ctx.mine(i) {
+                sw.one("L1root", p);
+            }
+        });
+    }
     // L4
     let seeds = closure_seeds(tier.pick(0, 1));
     for s in &seeds {
